@@ -908,6 +908,27 @@ impl Sim {
                     out.push(finding(&["C08"], "protection-violated failure on receipt over unreliable transport".into()));
                 }
             }
+            (Mech::LongTerm, FinalKind::FailedDoNotRetry) => {
+                // "after the server's 401 challenge the application is told to retry; a 438 switches to the new nonce":
+                // a well-formed challenge the harness built itself must not end the transaction with do-not-retry
+                if trusted && !self.desync {
+                    let supported = |l: &Vec<RAlg>| l.iter().any(|a| a.id == 1 || a.id == 2);
+                    let algs_ok = match &facts.algs {
+                        None => !facts.cookie_algs_bit,
+                        Some(l) => supported(l),
+                    };
+                    let no_auth = facts.mi.is_none() && facts.sha.is_none();
+                    match facts.error_code {
+                        Some(401) if facts.class == 3 && facts.realm.is_some() && facts.nonce.is_some() && algs_ok && no_auth => {
+                            out.push(finding(&["C08"], "well-formed 401 challenge ended the transaction with do-not-retry instead of a retry instruction".into()));
+                        }
+                        Some(438) if facts.class == 3 && facts.nonce.is_some() && self.lt_sess.is_some() && algs_ok && no_auth => {
+                            out.push(finding(&["C08"], "well-formed 438 with a new nonce ended the transaction with do-not-retry instead of a retry instruction".into()));
+                        }
+                        _ => {}
+                    }
+                }
+            }
             (Mech::LongTerm, _) => {}
         }
     }
